@@ -89,7 +89,12 @@ fn alt_s() -> impl Strategy<Value = u16> {
 
 fn kind_s() -> impl Strategy<Value = Kind> {
     prop_oneof![
-        2 => (proptest::array::uniform8(prop_oneof![4 => 1u8..27, 2 => 48u8..58, 2 => Just(32u8), 1 => 0u8..64]), 1u8..5).prop_map(|(codes, tc)| Kind::Ident { codes, tc }),
+        2 => (prop_oneof![
+                12 => proptest::array::uniform8(prop_oneof![4 => 1u8..27, 2 => 48u8..58, 2 => Just(32u8), 1 => 0u8..64]),
+                1 => Just([32u8; 8]),                              // all blanks: an empty call sign
+                1 => Just([32, 32, 32, 32, 32, 32, 32, 1u8]),      // only the 8th character
+                1 => Just([0u8; 8]),                               // unassigned code 0 throughout
+            ], 1u8..5).prop_map(|(codes, tc)| Kind::Ident { codes, tc }),
         3 => (prop_oneof![6 => 1u8..3, 1 => 0u8..8], prop_oneof![1 => Just(0u16), 4 => 1u16..1024, 4 => prop_oneof![Just(121u16), Just(431)]], any::<bool>(), prop_oneof![1 => Just(0u16), 4 => 1u16..1024, 4 => prop_oneof![Just(121u16), Just(431)]], any::<bool>(), prop_oneof![1 => Just(0u16), 8 => 1u16..512], any::<bool>())
             .prop_map(|(st, ew, ew_sign, ns, ns_sign, vr, vr_sign)| Kind::Velocity { st, ew, ew_sign, ns, ns_sign, vr, vr_sign }),
         9 => (any::<bool>(), prop_oneof![9u8..19, 20u8..23], alt_s(), possrc_s()).prop_map(|(odd, tc, alt, src)| Kind::Position { odd, tc, alt, src }),
@@ -504,7 +509,7 @@ fn resync(model: &mut Model, planes: &Airplanes) {
     model.recs.retain(|k, _| keys.contains(k));
     for (k, st) in planes.iter() {
         let rec = model.recs.entry(icao_u(k)).or_default();
-        rec.count = st.num_messages;
+        rec.count = st.num_messages as u32;
         let c = &st.coords;
         let p = c.position.map(|p| (p.latitude, p.longitude));
         if rec.position.map(|a| p.map(|b| !pos_eq(a, b)).unwrap_or(true)).unwrap_or(p.is_some()) {
@@ -513,8 +518,8 @@ fn resync(model: &mut Model, planes: &Airplanes) {
         for i in 0..2 {
             match (&rec.slots[i], &c.altitudes[i]) {
                 (_, None) => rec.slots[i] = None,
-                (Some(e), Some(a)) if e.yz == a.lat_cpr && e.xz == a.lon_cpr => {}
-                (_, Some(a)) => rec.slots[i] = Some(PosRep { yz: a.lat_cpr, xz: a.lon_cpr, alt: a.alt.map(|x| x as i64), alt_code: 0 }),
+                (Some(e), Some(a)) if e.yz as u64 == a.lat_cpr as u64 && e.xz as u64 == a.lon_cpr as u64 => {}
+                (_, Some(a)) => rec.slots[i] = Some(PosRep { yz: a.lat_cpr as u32, xz: a.lon_cpr as u32, alt: a.alt.map(|x| x as i64), alt_code: 0 }),
             }
         }
         // latest-wins attributes: adopt what the implementation holds
@@ -555,7 +560,7 @@ fn step_model(model: &mut Model, b: &Built, added: Added, planes: &Airplanes, rx
     }
     let rec = model.recs.get_mut(&b.addr).unwrap();
     let st = planes.get(icao(b.addr)).unwrap();
-    if st.num_messages != rec.count {
+    if st.num_messages as u64 != rec.count as u64 {
         fails.push(("C12/num_messages".into(), format!("{key}: num_messages {} after {} squitters since it was added", st.num_messages, rec.count)));
     }
     if !was_tracked && rec.count == 1 {
@@ -601,7 +606,34 @@ fn step_model(model: &mut Model, b: &Built, added: Added, planes: &Airplanes, rx
         if let (Some(e), Some(o)) = (rec.slots[0], rec.slots[1]) {
             let (ea, oa) = (lib_report(0, &e), lib_report(1, &o));
             // the argument order is not fixed by the statement: either pairing is accepted
-            let cands: Vec<Option<(f64, f64)>> = vec![cpr::get_position((&ea, &oa)).map(|p| (p.latitude, p.longitude)), cpr::get_position((&oa, &ea)).map(|p| (p.latitude, p.longitude))];
+            // reference pairing (exact global decode, independent of cpr.rs); where the reference
+            // leaves the verdict open (transition latitudes, only the older report out of range)
+            // the library's own answer for that order is taken
+            let lib = [cpr::get_position((&ea, &oa)).map(|p| (p.latitude, p.longitude)), cpr::get_position((&oa, &ea)).map(|p| (p.latitude, p.longitude))];
+            let mut cands: Vec<Option<(f64, f64)>> = vec![];
+            for (k, latest) in [1u32, 0].iter().enumerate() {
+                use crate::refcpr::RefDecode;
+                let g = 1e-7;
+                let c = match refcpr::decode(e.yz, e.xz, o.yz, o.xz, *latest) {
+                    RefDecode::Pos { lat, lon, rlat_e, rlat_o } => {
+                        if refcpr::near_transition(rlat_e) < g || refcpr::near_transition(rlat_o) < g {
+                            lib[k]
+                        } else {
+                            Some((lat, lon))
+                        }
+                    }
+                    RefDecode::ZoneMismatch { rlat_e, rlat_o } => {
+                        if refcpr::near_transition(rlat_e) < g || refcpr::near_transition(rlat_o) < g {
+                            lib[k]
+                        } else {
+                            None
+                        }
+                    }
+                    RefDecode::LatOutOfRange => None,
+                    RefDecode::OtherLatOutOfRange => lib[k],
+                };
+                cands.push(c);
+            }
             let mut verdicts: Vec<(&str, Option<(f64, f64)>, Option<f64>, bool)> = vec![]; // (what, position, distance, dontcare)
             for cand in &cands {
                 match cand {
@@ -714,7 +746,7 @@ fn step_model(model: &mut Model, b: &Built, added: Added, planes: &Airplanes, rx
         for p in 0..2 {
             match (&rec.slots[p], &c.altitudes[p]) {
                 (None, None) => {}
-                (Some(e), Some(a)) if e.yz == a.lat_cpr && e.xz == a.lon_cpr => {}
+                (Some(e), Some(a)) if e.yz as u64 == a.lat_cpr as u64 && e.xz as u64 == a.lon_cpr as u64 => {}
                 (e, a) => fails.push(("C13/stored_report".into(), format!("{key}: stored {} report is {:?}, the most recent one received since the last clear is {:?}", if p == 0 { "even" } else { "odd" }, a.map(|a| (a.lat_cpr, a.lon_cpr)), e.map(|e| (e.yz, e.xz))))),
             }
         }
@@ -924,9 +956,63 @@ pub fn eval_scenario(s: &Scenario) -> (Vec<Fail>, RunOut) {
 }
 
 pub fn replay(pid: &str, v: &Value) -> Vec<Failure> {
+    if v.get("kind").and_then(|k| k.as_str()) == Some("crowd") {
+        let n = v["n"].as_u64().unwrap_or(700) as usize;
+        let rounds = v["rounds"].as_u64().unwrap_or(2) as usize;
+        return crowd_check(v["seed"].as_u64().unwrap_or(1), n, rounds).into_iter().filter(|f| f.0.starts_with(pid)).map(|(sig, msg)| Failure { sig, msg, replay: v.clone() }).collect();
+    }
     let Some(s) = scenario_from(v) else { return vec![] };
     let (fails, _) = eval_scenario(&s);
     fails.into_iter().filter(|f| f.0.starts_with(pid) || f.0.starts_with("C01")).map(|(sig, msg)| Failure { sig, msg, replay: v.clone() }).collect()
+}
+
+/// C12 with a crowd: `n` distinct addresses heard in a generated order, several rounds; nobody may
+/// leave, every first frame is `added`, counts are exact.  (Histories only use up to 4 aircraft.)
+pub fn crowd_check(seed: u64, n: usize, rounds: usize) -> Vec<Fail> {
+    use crate::core::RngExt;
+    let mut rng = make_rng(seed, 0xc0de, n as u64);
+    let mut planes = Airplanes::new();
+    let mut counts: BTreeMap<u32, u32> = BTreeMap::new();
+    let mut fails = vec![];
+    let addrs: Vec<u32> = (0..n as u32).map(|i| 0x100000 + i * 0x1003 + (i % 7)).collect();
+    for round in 0..rounds {
+        for _ in 0..n {
+            let a = if round == 0 { addrs[counts.len().min(n - 1)] } else { *rng.pick(&addrs) };
+            let mut me = [0u8; 7];
+            let tc = *rng.pick(&[4u8, 19, 11, 31, 28, 0, 7, 29]);
+            set(&mut me, 1, 5, tc as u64);
+            if tc == 4 {
+                for i in 0..8 {
+                    set(&mut me, 9 + 6 * i, 6, 1 + rng.below(26));
+                }
+            }
+            if tc == 31 {
+                set(&mut me, 6, 3, 2 + rng.below(6));
+            }
+            let df18 = rng.chance(1, 4);
+            let bytes = squitter(if df18 { 18 } else { 17 }, 5, a, &me);
+            let Ok(frame) = Frame::from_bytes(&bytes) else { continue };
+            let was = counts.contains_key(&a);
+            let added = planes.action(frame, (52.0, 4.0), 500.0);
+            *counts.entry(a).or_insert(0) += 1;
+            if (added == Added::Yes) == was {
+                fails.push(("C12/added/crowd".to_string(), format!("with {} aircraft tracked, a frame from {a:06x} (tracked before: {was}) is reported added={added:?}", counts.len())));
+            }
+            if planes.len() != counts.len() {
+                fails.push(("C12/keys/crowd".to_string(), format!("{} addresses heard and none expired, but {} are tracked (after a frame from {a:06x})", counts.len(), planes.len())));
+                return fails;
+            }
+            match planes.get(icao(a)) {
+                Some(st) if st.num_messages as u64 == counts[&a] as u64 => {}
+                Some(st) => fails.push(("C12/num_messages/crowd".to_string(), format!("{a:06x}: num_messages {} after {} squitters ({} aircraft tracked)", st.num_messages, counts[&a], counts.len()))),
+                None => fails.push(("C12/keys/crowd".to_string(), format!("{a:06x} was just heard but is not tracked ({} aircraft)", counts.len()))),
+            }
+            if fails.len() > 3 {
+                return fails;
+            }
+        }
+    }
+    fails
 }
 
 pub fn run(ctx: &Ctx, pid: &'static str) -> ! {
@@ -1015,6 +1101,19 @@ pub fn run(ctx: &Ctx, pid: &'static str) -> ! {
             st.fail(Failure { sig, msg: format!("{msg}; history: {:?}", tr.steps), replay: scenario_json(&s) });
         }
     });
+    if pid == "C12" {
+        for (n, rounds) in [(700usize, 3usize), (2100, 2), (70_000, 1)] {
+            if n > 3000 && ctx.tier == Tier::Quick {
+                continue;
+            }
+            st.evaluations += (n * rounds) as u64;
+            st.nontrivial_enum += 1;
+            st.class("crowd of distinct addresses");
+            for (sig, msg) in crowd_check(ctx.seed, n, rounds) {
+                st.fail(Failure { sig, msg, replay: json!({"kind": "crowd", "n": n, "rounds": rounds, "seed": ctx.seed}) });
+            }
+        }
+    }
     let mut vac = vec![];
     let total = st.evaluations.max(1);
     let nt = st.classes.get("non-trivial").copied().unwrap_or(0);
